@@ -12,13 +12,19 @@ PROP = {
                  "three-way differential correspondence on full frames",
     "streams": [{"name": "c15", "shards": {"quick": 4, "thorough": 16}}],
     "modules": ["GbVerif.Model.Tile", "GbVerif.Model.Ppu", "GbVerif.Spec.Bits", "GbVerif.Spec.Frame", "GbVerif.Proofs.Enum", "GbVerif.Proofs.PpuInterleave",
-                "GbVerif.Proofs.PpuBits", "GbVerif.Proofs.PpuObj", "GbVerif.Proofs.PpuSel", "GbVerif.Proofs.NatBits"],
+                "GbVerif.Proofs.PpuBits", "GbVerif.Proofs.PpuObj", "GbVerif.Proofs.PpuSel", "GbVerif.Proofs.PpuLine", "GbVerif.Proofs.PpuFrame", "GbVerif.Proofs.NatBits"],
     "exhaustive": False,
     "rule": "quick 300 / thorough 30000 full frames (23040 pixels each) from power-on through VideoState's public API in random "
             "batch sizes; VRAM/OAM/LCDC bits 1-6/SCX/SCY/WX/WY/BGP/OBP0/OBP1 random + adversarial (11..40 objects on a line, equal X, "
             "X in {0,1,7,8,160..169,255}, Y in {0,8,15,16,144..161}, 8x16 with odd / 0xff tile index, flips, priority bit, WX/WY/SCX/SCY "
             "edge sets and full sweeps); non-trivial = more than one shade on screen",
-    "assumptions": ["LCDC bits 7 and 0 set (LCD and BG enabled), as the property states",
+    "assumptions": ["proof stages complete: (i) interleave/flip/tile addressing, (ii) object_cache_spec, (iii)-(v) per-pixel "
+                    "invariant (bg_window_colour_spec, mixing_spec, pixel_step_spec) and the 40 drawing ticks (line_spec_partial); "
+                    "NOT proved, covered by the three-way frame correspondence only: (a) the mode 2->3 set-up enterMode3 establishes "
+                    "the invariant at pixel 0 (window first tile for WX<=7, BG first tile with SCX fine-scroll shift), (b) composition "
+                    "over the 114 ticks of a line and the 144 lines of the frame up to the buffer swap (frame_swap_partial proves the swap tick)",
+                    "theorem hypotheses: registers are bytes, VRAM is 8192 and OAM 160 bytes",
+                    "LCDC bits 7 and 0 set (LCD and BG enabled), as the property states",
                     "VRAM, OAM and all registers constant over the frame; clock batches are multiples of 4 (C14/C09 own the rest)"],
     "trusted": ["window line counter modelled as LY-WY in the reference (see Spec/Frame.lean header)"],
 }
